@@ -14,7 +14,11 @@ from harness.checks import c19
 
 PLOTS = {"standard": ["-m", "mae", "-x", "leadtime"], "pithist": ["-m", "pithist"], "reliability": ["-m", "reliability", "-r", "2"],
          "obsfcst": ["-m", "obsfcst", "-x", "leadtime"], "map": ["-m", "mae", "-type", "map"],
-         "bias": ["-m", "bias", "-x", "leadtime"]}
+         "bias": ["-m", "bias", "-x", "leadtime"], "taylor": ["-m", "taylor"]}
+# diagrams with one main axes and a legend of their own: the legend's place is held there too
+EXTRA_PROPS = {"reliability": {"legloc"}, "taylor": {"legloc"}}
+# the Taylor diagram draws on axes of equal scale whose x- and y-range follow one radius: the limits, ticks and margins are the diagram's own
+COUPLED = {"taylor": {"xlim", "ylim", "xticks", "yticks", "xticklabels", "yticklabels", "crop", "margins", "left", "right", "top", "bottom", "pixels"}}
 # on the multi-axes diagrams only the properties that make sense on every sub-axes are held
 MULTI_PROPS = {"crop", "clabel", "clim", "cmap", "obsleg", "xlim", "ylim", "xlabel", "ylabel", "labfs", "tickfs", "xrot", "yrot", "figsize", "dpi", "left", "right", "top", "bottom", "margins", "format", "pixels"}
 
@@ -106,7 +110,7 @@ def _check_chunk(cases):
             continue
         P = figproj.project(fig, out, names, all_axes=multi)
         for prop, expected in c["expected"]:
-            if restricted and prop not in MULTI_PROPS:
+            if restricted and prop not in (MULTI_PROPS | EXTRA_PROPS.get(plot, set())) - COUPLED.get(plot, set()):
                 continue
             msg = figproj.owned_ok(prop, expected, P, P0)
             if msg:
@@ -114,7 +118,7 @@ def _check_chunk(cases):
                         (prop == "yticks" and "-ylog" in c["flags"] and _log_ticks(P.get("yticks")))
                 divs.append(("figure:option:%s%s" % (prop, ":with-log-axis" if known else ""), known, "%s plot with %s: %s" % (plot, " ".join(c["argv"]), msg), rep))
         for prop in c["unchanged"]:
-            if restricted and prop not in MULTI_PROPS:
+            if restricted and prop not in (MULTI_PROPS | EXTRA_PROPS.get(plot, set())) - COUPLED.get(plot, set()):
                 continue
             if not figproj.same(P.get(prop), P0.get(prop)):
                 divs.append(("figure:interference:%s" % prop, False, "%s plot with %s: %s changed from %r to %r although no given option controls it"
